@@ -1414,18 +1414,23 @@ class Pool:
         for i in range(self._processes - len(self._pool)):
             if self._state != RUN:
                 return
+            index = self._avail_index()
+            if index is None:
+                # shrink() lowered the target while this pass was adding
+                # workers: the pool is complete.
+                return
             try:
                 if exitcodes and exitcodes[i] not in (EX_OK, EX_RECYCLE):
                     self.restart_state.step()
             except IndexError:
                 self.restart_state.step()
-            self._create_worker_process(self._avail_index())
+            self._create_worker_process(index)
             debug('added worker')
 
     def _avail_index(self):
-        assert len(self._pool) < self._processes
         indices = set(p.index for p in self._pool)
-        return next(i for i in range(self._processes) if i not in indices)
+        return next((i for i in range(self._processes)
+                     if i not in indices), None)
 
     def did_start_ok(self):
         return not self._join_exited_workers()
